@@ -5,6 +5,7 @@ package zzverif
 
 import (
 	"encoding/json"
+	"fmt"
 	"net/http"
 	"strings"
 	"unicode"
@@ -170,4 +171,73 @@ func (g *G) respellHistory(h *History) *History {
 		}
 	}
 	return &c
+}
+
+// C20: stale-while-revalidate timing — origin latencies around the timeout, every outcome of the
+// background request, every timeout setting, caller contexts cancelled before / after.
+func (g *G) genSWR(id string) *History {
+	h := &History{ID: id, Prop: g.prop, Class: "swr", Backend: "mem", Logger: "discard"}
+	timeout := pick(g, int64(0), 0, -1, 1, sec, 2*sec+sec/4, 5*sec)
+	h.SWRTimeoutNs = timeout
+	eff := timeout
+	if eff <= 0 {
+		eff = 5 * sec
+	}
+	life := pick(g, int64(0), 1, 10)
+	swr := pick(g, int64(30), 60, 3600)
+	first := Hdr{{"Date", dateAt(0, 0)}, {"Cache-Control", fmt.Sprintf("max-age=%d, stale-while-revalidate=%d", life, swr)}}
+	if g.chance(0.7) {
+		first = append(first, [2]string{"Etag", `"v1"`})
+	}
+	if g.chance(0.4) {
+		first = append(first, [2]string{"Last-Modified", dateAt(0, -1000)})
+	}
+	h.Ops = append(h.Ops, Op{Op: "req", AtNs: 0, Method: "GET", URL: "http://a.test/swr", Replies: []Reply{{Status: 200, Hdr: first, Body: "v1", BodyFail: -1}}})
+	at := (life + 1 + int64(g.r.Intn(20))) * sec
+	n := 1 + g.r.Intn(3)
+	for i := 0; i < n; i++ {
+		var delay int64
+		hang := false
+		switch g.r.Intn(8) {
+		case 0:
+			delay = 0
+		case 1:
+			delay = 1_000_000
+		case 2:
+			delay = eff - 1
+		case 3:
+			delay = eff + 1
+		case 4:
+			delay = eff + 3*sec + sec/2
+		case 5:
+			hang = true
+		default:
+			delay = sec / 2
+		}
+		var rp Reply
+		switch g.r.Intn(5) {
+		case 0, 1:
+			rp = Reply{Status: 304, Hdr: Hdr{{"Date", dateAt(at+delay, 0)}, {"X-New", "n"}}, BodyFail: -1}
+		case 2:
+			rp = g.cacheableReply(at+delay, "", life)
+		case 3:
+			rp = Reply{Status: pick(g, 500, 503, 404), Hdr: Hdr{{"Date", dateAt(at+delay, 0)}}, Body: "e", BodyFail: -1}
+		default:
+			rp = Reply{Err: true, BodyFail: -1}
+		}
+		rp.DelayNs = delay
+		rp.Hang = hang
+		op := Op{Op: "req", AtNs: at, Method: "GET", URL: "http://a.test/swr", Replies: []Reply{rp}}
+		if g.chance(0.2) {
+			op.Cancel = pick(g, "before", "after")
+		}
+		if g.chance(0.15) {
+			op.Hdr = Hdr{{"Cache-Control", pick(g, "max-stale=5", "only-if-cached", "no-cache", "max-age=1")}}
+		}
+		h.Ops = append(h.Ops, op)
+		// the next request comes after the background work has certainly ended, at an instant
+		// that cannot coincide with a completion or a cancellation
+		at += eff + delay%sec + 20*sec + pick(g, int64(0), sec/4)
+	}
+	return h
 }
